@@ -110,5 +110,11 @@ silent
 printf "OP HC %.17g\n", dt
 continue
 end
+break reb_integrator_whfast_from_inertial
+commands
+silent
+printf "OP F 0\n"
+continue
+end
 run
 quit
